@@ -1,0 +1,69 @@
+//go:build verif
+
+package lang
+
+import (
+	"errors"
+	"sort"
+)
+
+// Verification hooks (build tag verif). They only observe: the harness in
+// /verif installs callbacks, the interpreter calls them at the marked sites.
+
+var ErrVerifBudget = errors.New("verif: step budget exhausted")
+
+type VerifHooks struct {
+	// Step is called at the top of evalExpr / evalStatement with the AST node.
+	// A non-nil return value aborts the evaluation with that error.
+	Step func(node any) error
+	// Frame is called after a frame was pushed and before one is popped.
+	Frame func(push bool, name string, depth int)
+	// Rule is called before a rule body (or pattern) is evaluated.
+	Rule func(kind string, depth int)
+}
+
+var verifHooks VerifHooks
+
+func VerifSetHooks(h VerifHooks) { verifHooks = h }
+
+func verifStep(node any) error {
+	if verifHooks.Step != nil {
+		return verifHooks.Step(node)
+	}
+	return nil
+}
+
+func verifFrame(push bool, name string, depth int) {
+	if verifHooks.Frame != nil {
+		verifHooks.Frame(push, name, depth)
+	}
+}
+
+func verifRule(kind string, e *Evaluator) {
+	if verifHooks.Rule != nil {
+		verifHooks.Rule(kind, e.stackTop.depth)
+	}
+}
+
+// VerifGlobals returns a fingerprint of the process-level mutable state.
+func VerifGlobals() map[string]any {
+	keys := func(v *Value) []string {
+		if v == nil || v.Obj == nil {
+			return nil
+		}
+		ks := make([]string, 0, len(*v.Obj))
+		for k := range *v.Obj {
+			ks = append(ks, k)
+		}
+		sort.Strings(ks)
+		return ks
+	}
+	return map[string]any{
+		"callDepthLimit":   callDepthLimit,
+		"fuzzingLoopLimit": fuzzingLoopLimit,
+		"arrayProto":       keys(arrayPrototype),
+		"objProto":         keys(objPrototype),
+		"strProto":         keys(strPrototype),
+		"numProto":         keys(numPrototype),
+	}
+}
